@@ -17,7 +17,7 @@ Section L.
 
   Notation set_value := (set_value F lvalidate lto_python ldefault lcallable lflag vrun).
   Notation load_keys := (load_keys F lvalidate lto_python ldefault lcallable lflag vrun).
-  Notation build_cfg := (build_cfg F ldefault lcallable).
+  Notation build_cfg := (build_cfg F lvalidate lto_python ldefault lcallable lflag vrun).
   Notation validate_raise := (validate_raise F lvalidate lflag vrun).
   Notation set_leaf := (set_leaf F lvalidate).
 
@@ -73,7 +73,7 @@ Section L.
         | POther _ => (w, c, OUnm)
         | _ => (w, c, OErr (EValidation (path_join pre k)))
         end
-    | Some (NCfgList req vs fs') =>
+    | Some (NCfgList req vs fs' _) =>
         let p := path_join pre k in
         if route_load then
           match x with
@@ -98,7 +98,7 @@ Section L.
     intros x w pre c fs dyn k rl.
     destruct x; try reflexivity.
     - unfold set_value_body. cbn [Config.set_value].
-      destruct (fget F k fs) as [[f|dyn' vs fs'|req vs fs']|]; try reflexivity.
+      destruct (fget F k fs) as [[f|dyn' vs fs'|req vs fs' fs'q]|]; try reflexivity.
       set (p := path_join pre k).
       match goal with |- context [?f l 0 w (@nil cfg)] => set (g := f) end.
       assert (H : forall l1 i1 w1 acc1, g l1 i1 w1 acc1 = cfg_items p vs fs' l1 i1 w1 acc1).
@@ -114,7 +114,7 @@ Section L.
         apply IH. }
       rewrite H; destruct rl; [reflexivity|]; destruct (req && is_nil l); reflexivity.
     - unfold set_value_body. cbn [Config.set_value].
-      destruct (fget F k fs) as [[f|dyn' vs fs'|req vs fs']|]; try reflexivity.
+      destruct (fget F k fs) as [[f|dyn' vs fs'|req vs fs' fs'q]|]; try reflexivity.
       set (p := path_join pre k).
       match goal with |- context [?f l 0 w (@nil cfg)] => set (g := f) end.
       assert (H : forall l1 i1 w1 acc1, g l1 i1 w1 acc1 = cfg_items p vs fs' l1 i1 w1 acc1).
@@ -197,7 +197,7 @@ Section L.
     set_value x w pre c fs dyn k rl = (w', c', o) -> o <> OOk -> c' = c.
   Proof.
     intros x w pre c fs dyn k rl w' c' o H Ho. rewrite set_value_unfold in H. unfold set_value_body in H.
-    destruct (fget F k fs) as [[f|dyn' vs fs'|req vs fs']|].
+    destruct (fget F k fs) as [[f|dyn' vs fs'|req vs fs' fs'q]|].
     - destruct (set_leaf pre c f k x) as [c1 o1] eqn:E. inversion H; subst. eapply set_leaf_err; eauto.
     - destruct x; try (inversion H; subst; reflexivity).
       destruct (build_cfg w fs') as [w1 sub0].
@@ -224,6 +224,7 @@ Section L.
   Definition covered (o : cop) : bool :=
     match o with
     | CSet _ _ | CAppend _ _ | CSetIdx _ _ _ | CInsert _ _ _ | CValidate _ => true
+    | CSetObj _ _ | CAppendObj _ _ | CSetIdxObj _ _ _ | CInsertObj _ _ _ => true    (* the same routes, given a configuration object *)
     | CLoads (Ok _) => false          (* a document that parses is a load_tree: it may fail half way *)
     | CLoads _ => true                (* a document load that fails to parse *)
     | CLoad _ _ | CReset _ => false
@@ -245,12 +246,12 @@ Section L.
   Proof.
     intros o w pre c dyn vs fs w' c' oc1 Hc H Ho. destruct o; cbn [covered] in Hc; try discriminate; cbn [Config.apply_cop] in H.
     - eapply set_value_err; eauto.
-    - destruct (fget F k fs) as [[f|d1 v1 f1|req vs' fs']|]; try (inversion H; subst; reflexivity).
+    - destruct (fget F k fs) as [[f|d1 v1 f1|req vs' fs' fs'q]|]; try (inversion H; subst; reflexivity).
       destruct (dget k (c_data c)) as [[v|c0|l]|]; try (inversion H; subst; reflexivity).
       destruct (make_item w (path_join pre k) (N.of_nat (length l)) vs' fs' x) as [[w1 it] o1] eqn:E.
       destruct it as [it|]; [|inversion H; subst; reflexivity].
       destruct o1; try (inversion H; subst; reflexivity). inversion H; subst. congruence.
-    - destruct (fget F k fs) as [[f|d1 v1 f1|req vs' fs']|]; try (inversion H; subst; reflexivity).
+    - destruct (fget F k fs) as [[f|d1 v1 f1|req vs' fs' fs'q]|]; try (inversion H; subst; reflexivity).
       destruct (dget k (c_data c)) as [[v|c0|l]|]; try (inversion H; subst; reflexivity).
       destruct (make_item w (path_join pre k) (N.of_nat (length l)) vs' fs' x) as [[w1 it] o1] eqn:E.
       destruct it as [it|]; [|inversion H; subst; reflexivity].
@@ -258,11 +259,33 @@ Section L.
       destruct (i <? length l)%nat; inversion H; subst; try reflexivity. congruence.
     - inversion H; subst. reflexivity.
     - destruct parsed; try discriminate; inversion H; subst; reflexivity.
-    - destruct (fget F k fs) as [[f|d1 v1 f1|req vs' fs']|]; try (inversion H; subst; reflexivity).
+    - destruct (fget F k fs) as [[f|d1 v1 f1|req vs' fs' fs'q]|]; try (inversion H; subst; reflexivity).
       destruct (dget k (c_data c)) as [[v|c0|l]|]; try (inversion H; subst; reflexivity).
       destruct (make_item w (path_join pre k) (N.of_nat (length l)) vs' fs' x) as [[w1 it] o1] eqn:E.
       destruct it as [it|]; [|inversion H; subst; reflexivity].
       destruct o1; try (inversion H; subst; reflexivity). inversion H; subst. congruence.
+    - (* CSetObj *)
+      destruct (fget F k fs) as [[f|d1 v1 f1|req vs' fs' fs'q]|].
+      + destruct (lvalidate f cfg_object); inversion H; subst; reflexivity.
+      + inversion H; subst. congruence.
+      + inversion H; subst. reflexivity.
+      + destruct dyn; inversion H; subst; reflexivity.
+    - (* CAppendObj *)
+      destruct (fget F k fs) as [[f|d1 v1 f1|req vs' fs' fs'q]|]; try (inversion H; subst; reflexivity).
+      destruct (dget k (c_data c)) as [[v|c0|l]|]; try (inversion H; subst; reflexivity).
+      destruct (obj_item F lvalidate lflag vrun (path_join pre k) (N.of_nat (length l)) vs' fs' src);
+        inversion H; subst; try reflexivity. congruence.
+    - (* CSetIdxObj *)
+      destruct (fget F k fs) as [[f|d1 v1 f1|req vs' fs' fs'q]|]; try (inversion H; subst; reflexivity).
+      destruct (dget k (c_data c)) as [[v|c0|l]|]; try (inversion H; subst; reflexivity).
+      destruct (obj_item F lvalidate lflag vrun (path_join pre k) (N.of_nat (length l)) vs' fs' src);
+        try (inversion H; subst; reflexivity).
+      destruct (i <? length l)%nat; inversion H; subst; try reflexivity. congruence.
+    - (* CInsertObj *)
+      destruct (fget F k fs) as [[f|d1 v1 f1|req vs' fs' fs'q]|]; try (inversion H; subst; reflexivity).
+      destruct (dget k (c_data c)) as [[v|c0|l]|]; try (inversion H; subst; reflexivity).
+      destruct (obj_item F lvalidate lflag vrun (path_join pre k) (N.of_nat (length l)) vs' fs' src);
+        inversion H; subst; try reflexivity. congruence.
   Qed.
 
   Theorem reject_unchanged : forall ps o w pre c dyn vs fs w' c' oc1,
@@ -270,17 +293,54 @@ Section L.
   Proof.
     induction ps as [|[k|k i] ps IH]; intros o w pre c dyn vs fs w' c' oc1 Hc H Ho; cbn [Config.at_path] in H.
     - eapply apply_cop_err; eauto.
-    - destruct (fget F k fs) as [[f|dyn' vs' fs'|req vs' fs']|]; try (inversion H; subst; reflexivity).
+    - destruct (fget F k fs) as [[f|dyn' vs' fs'|req vs' fs' fs'q]|]; try (inversion H; subst; reflexivity).
       destruct (dget k (c_data c)) as [[v|sub|l]|] eqn:Eg; try (inversion H; subst; reflexivity).
       destruct (at_path ps w (path_join pre k) sub dyn' vs' fs' o) as [[w1 sub'] o1] eqn:E.
       inversion H; subst. apply IH in E; auto. subst sub'.
       destruct c as [i0 d df dy]. cbn [c_data] in Eg. rewrite dset_same by exact Eg. reflexivity.
-    - destruct (fget F k fs) as [[f|dyn' vs' fs'|req vs' fs']|]; try (inversion H; subst; reflexivity).
+    - destruct (fget F k fs) as [[f|dyn' vs' fs'|req vs' fs' fs'q]|]; try (inversion H; subst; reflexivity).
       destruct (dget k (c_data c)) as [[v|sub|l]|] eqn:Eg; try (inversion H; subst; reflexivity).
       destruct (nth_error l i) as [it|] eqn:En; [|inversion H; subst; reflexivity].
       destruct (at_path ps w (path_index (path_join pre k) (N.of_nat i)) it false vs' fs' o) as [[w1 it'] o1] eqn:E.
       inversion H; subst. apply IH in E; auto. subst it'.
       destruct c as [i0 d df dy]. cbn [c_data] in Eg. rewrite set_nth_cfg_same by exact En. rewrite dset_same by exact Eg. reflexivity.
+  Qed.
+
+  (* the same, spelled out for configuration objects: an object that is refused -- as an assignment by attribute, dotted
+     path or constructor keyword, or as an item appended to / assigned into / inserted into a list of configurations --
+     leaves the configuration it was offered to exactly as it was, wherever in the tree that configuration sits *)
+  Definition is_obj_op (o : cop) : bool :=
+    match o with CSetObj _ _ | CAppendObj _ _ | CSetIdxObj _ _ _ | CInsertObj _ _ _ => true | _ => false end.
+  Lemma obj_op_covered : forall o, is_obj_op o = true -> covered o = true.
+  Proof. intros o H. destruct o; try discriminate; reflexivity. Qed.
+  Theorem reject_obj_unchanged : forall ps o w pre c dyn vs fs w' c' oc1,
+    is_obj_op o = true -> at_path ps w pre c dyn vs fs o = (w', c', oc1) -> oc1 <> OOk -> c' = c.
+  Proof. intros. eapply reject_unchanged; eauto. apply obj_op_covered. assumption. Qed.
+  (* ... also when the object is built by the model on the side (Config.detached), whatever was done to it there *)
+  Theorem reject_built_obj_unchanged : forall ps r k sdyn svs sfs dops w pre c dyn vs fs w' c' oc1,
+    at_path_x F lvalidate lto_python ldefault lcallable lflag vrun ps w pre c dyn vs fs (XObj r k sdyn svs sfs dops) = (w', c', oc1) ->
+    oc1 <> OOk -> c' = c.
+  Proof.
+    intros ps r k sdyn svs sfs dops w pre c dyn vs fs w' c' oc1 H Ho. unfold at_path_x, resolve in H.
+    destruct (detached F lvalidate lto_python ldefault lcallable lflag vrun w sdyn svs sfs dops) as [w1 src].
+    eapply reject_unchanged; [| exact H | exact Ho]. destruct r; reflexivity.
+  Qed.
+  (* ... and over histories in which the caller keeps a refused object, works on it and offers it again: whatever the step,
+     a side-built or re-offered object that is refused leaves the configuration as it was *)
+  Theorem reject_kept_obj_unchanged : forall ps x w last pre c dyn vs fs w' last' c' oc1,
+    match x with XOp _ => False | _ => True end ->
+    at_path_xs F lvalidate lto_python ldefault lcallable lflag vrun ps w last pre c dyn vs fs x = (w', last', c', oc1) ->
+    oc1 <> OOk -> c' = c.
+  Proof.
+    intros ps x w last pre c dyn vs fs w' last' c' oc1 Hx H Ho. destruct x as [o|r k sdyn svs sfs dops|r k dops]; [destruct Hx| |];
+      cbn [at_path_xs] in H.
+    - destruct (detached F lvalidate lto_python ldefault lcallable lflag vrun w sdyn svs sfs dops) as [w1 src].
+      destruct (at_path ps w1 pre c dyn vs fs (obj_cop r k src)) as [[w2 c1] o1] eqn:E. inversion H; subst.
+      eapply reject_unchanged; [| exact E | exact Ho]. destruct r; reflexivity.
+    - destruct last as [[src0 [[sdyn svs] sfs]]|]; [|inversion H; subst; reflexivity].
+      destruct (run_detached F lvalidate lto_python ldefault lcallable lflag vrun dops w src0 sdyn svs sfs) as [w1 src].
+      destruct (at_path ps w1 pre c dyn vs fs (obj_cop r k src)) as [[w2 c1] o1] eqn:E. inversion H; subst.
+      eapply reject_unchanged; [| exact E | exact Ho]. destruct r; reflexivity.
   Qed.
 
   (* ---------------------------------------------------------------------------------------- *)
@@ -304,11 +364,11 @@ Section L.
     - unfold smem. rewrite existsb_app. cbn [existsb]. rewrite orb_false_r. reflexivity.
   Qed.
 
-  Lemma build_fields_keys : forall fs w w' d, build_fields F ldefault lcallable w fs = (w', d) -> map fst d = map fst fs.
+  Lemma build_fields_keys : forall fs w w' d, build_fields F lvalidate lto_python ldefault lcallable lflag vrun w fs = (w', d) -> map fst d = map fst fs.
   Proof.
     induction fs as [|[k nd] fs IH]; cbn [build_fields]; intros w w' d H.
     - inversion H; reflexivity.
-    - destruct (build_val F ldefault lcallable w nd) as [w1 v]. destruct (build_fields F ldefault lcallable w1 fs) as [w2 d2] eqn:E.
+    - destruct (build_val F lvalidate lto_python ldefault lcallable lflag vrun w nd) as [w1 v]. destruct (build_fields F lvalidate lto_python ldefault lcallable lflag vrun w1 fs) as [w2 d2] eqn:E.
       inversion H; subst. cbn [map fst]. f_equal. eapply IH; eauto.
   Qed.
 
@@ -317,18 +377,18 @@ Section L.
     build_cfg w fs = (w', c) -> In k (map fst fs) -> defined c k = false.
   Proof.
     unfold Config.build_cfg, defined. intros w fs w' c k H Hin.
-    destruct (build_fields F ldefault lcallable _ fs) as [w1 d]. inversion H; subst. cbn [c_defaults].
+    destruct (build_fields F lvalidate lto_python ldefault lcallable lflag vrun _ fs) as [w1 d]. inversion H; subst. cbn [c_defaults].
     unfold smem. apply negb_false_iff. apply existsb_exists. exists k. split; [exact Hin | apply str_eqb_refl].
   Qed.
 
   (* ... and exposes the declared default of every leaf field *)
   Lemma build_fields_leaf : forall fs w w' d k f,
-    build_fields F ldefault lcallable w fs = (w', d) -> fget F k fs = Some (NLeaf f) ->
+    build_fields F lvalidate lto_python ldefault lcallable lflag vrun w fs = (w', d) -> fget F k fs = Some (NLeaf f) ->
     exists n, dget k d = Some (VLeaf (ldefault f n)).
   Proof.
     unfold fget, dget. induction fs as [|[k0 nd] fs IH]; cbn [build_fields assoc]; intros w w' d k f H Hf; [discriminate|].
-    destruct (build_val F ldefault lcallable w nd) as [w1 v] eqn:Ev.
-    destruct (build_fields F ldefault lcallable w1 fs) as [w2 d2] eqn:E. inversion H; subst. cbn [assoc].
+    destruct (build_val F lvalidate lto_python ldefault lcallable lflag vrun w nd) as [w1 v] eqn:Ev.
+    destruct (build_fields F lvalidate lto_python ldefault lcallable lflag vrun w1 fs) as [w2 d2] eqn:E. inversion H; subst. cbn [assoc].
     destruct (str_eqb k k0).
     - inversion Hf; subst. cbn [Config.build_val] in Ev. unfold eval_default in Ev.
       destruct (lcallable f); inversion Ev; subst; eexists; reflexivity.
@@ -338,8 +398,98 @@ Section L.
     build_cfg w fs = (w', c) -> fget F k fs = Some (NLeaf f) -> exists n, dget k (c_data c) = Some (VLeaf (ldefault f n)).
   Proof.
     unfold Config.build_cfg. intros w fs w' c k f H Hf.
-    destruct (build_fields F ldefault lcallable _ fs) as [w1 d] eqn:E. inversion H; subst. cbn [c_data].
+    destruct (build_fields F lvalidate lto_python ldefault lcallable lflag vrun _ fs) as [w1 d] eqn:E. inversion H; subst. cbn [c_data].
     eapply build_fields_leaf; eauto.
+  Qed.
+
+  (* ---- lists of configurations with declared default items ---- *)
+  (* ListProxy(cfg, field, copy of the default): the loop of build_val, as a function of its own *)
+  Fixpoint build_items (vs : list N) (fs' : list (str * node F)) (ts : list pyval) (w : world) (acc : list cfg)
+    : world * option (list cfg) :=
+    match ts with
+    | [] => (w, Some (rev acc))
+    | PDict _ d :: r =>
+        let i := w_next w in
+        let '(w1, dd) := build_fields F lvalidate lto_python ldefault lcallable lflag vrun {| w_next := i + 1; w_calls := w_calls w |} fs' in
+        match flat_load F lvalidate lto_python d (Cfg i dd (map fst fs') []) fs' with
+        | (it1, OOk) =>
+            match validate_raise (NSub false vs fs') [] (VCfg it1) with
+            | OOk => build_items vs fs' r w1 (it1 :: acc)
+            | _ => (w1, None)
+            end
+        | _ => (w1, None)
+        end
+    | _ :: _ => (w, None)
+    end.
+  Definition bump_calls (callable : bool) (w : world) : world :=
+    if callable then {| w_next := w_next w; w_calls := w_calls w + 1 |} else w.
+  Lemma build_val_list : forall w r vs fs' callable maps,
+    build_val F lvalidate lto_python ldefault lcallable lflag vrun w (NCfgList r vs fs' (Some (callable, maps))) =
+      match build_items vs fs' maps (bump_calls callable w) [] with
+      | (w1, Some l) => (w1, VList l)
+      | (w1, None) => (w1, VLeaf default_failed)
+      end.
+  Proof.
+    intros w r vs fs' callable maps. cbn [Config.build_val]. unfold bump_calls.
+    match goal with |- match ?f maps ?w0 [] with _ => _ end = _ => set (g := f); set (ww := w0) end.
+    assert (H : forall ts w1 acc, g ts w1 acc = build_items vs fs' ts w1 acc).
+    { induction ts as [|a ts IH]; intros w1 acc; [reflexivity|].
+      destruct a; try reflexivity.
+      unfold g at 1; cbv beta iota fix; fold g. cbn [build_items].
+      match goal with |- (let '(_, _) := ?b in _) = (let '(_, _) := ?b' in _) => change b with b'; destruct b' as [w2 dd] end.
+      destruct (flat_load F lvalidate lto_python d (Cfg (w_next w1) dd (map fst fs') []) fs') as [it1 o].
+      destruct o; try reflexivity.
+      destruct (validate_raise (NSub false vs fs') [] (VCfg it1)); try reflexivity. apply IH. }
+    rewrite H. reflexivity.
+  Qed.
+  Lemma build_val_list_none : forall w r vs fs',
+    build_val F lvalidate lto_python ldefault lcallable lflag vrun w (NCfgList r vs fs' None) = (w, VLeaf PNone).
+  Proof. reflexivity. Qed.
+
+  (* every slot of a fresh configuration holds what build_val makes of the field's declaration, in some world *)
+  Lemma build_fields_slot : forall fs w w' d k nd,
+    build_fields F lvalidate lto_python ldefault lcallable lflag vrun w fs = (w', d) -> fget F k fs = Some nd ->
+    exists w0, dget k d = Some (snd (build_val F lvalidate lto_python ldefault lcallable lflag vrun w0 nd)).
+  Proof.
+    unfold fget, dget. induction fs as [|[k0 nd0] fs IH]; cbn [build_fields assoc]; intros w w' d k nd H Hf; [discriminate|].
+    destruct (build_val F lvalidate lto_python ldefault lcallable lflag vrun w nd0) as [w1 v] eqn:Ev.
+    destruct (build_fields F lvalidate lto_python ldefault lcallable lflag vrun w1 fs) as [w2 d2] eqn:E. inversion H; subst. cbn [assoc].
+    destruct (str_eqb k k0).
+    - inversion Hf; subst. exists w. rewrite Ev. reflexivity.
+    - eapply IH; eauto.
+  Qed.
+  Theorem fresh_slot : forall w fs w' c k nd,
+    build_cfg w fs = (w', c) -> fget F k fs = Some nd ->
+    exists w0, dget k (c_data c) = Some (snd (build_val F lvalidate lto_python ldefault lcallable lflag vrun w0 nd)).
+  Proof.
+    unfold Config.build_cfg. intros w fs w' c k nd H Hf.
+    destruct (build_fields F lvalidate lto_python ldefault lcallable lflag vrun _ fs) as [w1 d] eqn:E. inversion H; subst. cbn [c_data].
+    eapply build_fields_slot; eauto.
+  Qed.
+
+  (* what the items of a default list are: one per declared map, each a fresh item configuration into which the map was
+     loaded key by key (flat_load) and which then passed whole-configuration validation *)
+  Lemma build_items_spec : forall vs fs' ts w acc w' l,
+    build_items vs fs' ts w acc = (w', Some l) ->
+    exists l1, l = rev acc ++ l1 /\ length l1 = length ts
+      /\ Forall (fun it => Config.validate_errs F lvalidate lflag vrun (NSub false vs fs') [] (VCfg it) = []) l1
+      /\ Forall2 (fun m it => exists t d w0 dd, m = PDict t d /\ snd (build_fields F lvalidate lto_python ldefault lcallable lflag vrun
+                                                   {| w_next := w_next w0 + 1; w_calls := w_calls w0 |} fs') = dd
+                                /\ flat_load F lvalidate lto_python d (Cfg (w_next w0) dd (map fst fs') []) fs' = (it, OOk)) ts l1.
+  Proof.
+    intros vs fs'. induction ts as [|a ts IH]; intros w acc w' l H; cbn [build_items] in H.
+    - inversion H; subst. exists []. rewrite app_nil_r. repeat split; constructor.
+    - destruct a; try discriminate.
+      destruct (build_fields F lvalidate lto_python ldefault lcallable lflag vrun {| w_next := w_next w + 1; w_calls := w_calls w |} fs') as [w1 dd] eqn:Eb.
+      destruct (flat_load F lvalidate lto_python d (Cfg (w_next w) dd (map fst fs') []) fs') as [it1 o] eqn:El.
+      destruct o; try discriminate.
+      unfold Config.validate_raise in H.
+      destruct (Config.validate_errs F lvalidate lflag vrun (NSub false vs fs') [] (VCfg it1)) eqn:Ev; [|discriminate].
+      apply IH in H. destruct H as [l1 [Hl [Hn [Hv H2]]]]. exists (it1 :: l1).
+      split; [rewrite Hl; cbn [rev]; rewrite <- app_assoc; reflexivity|].
+      split; [cbn [length]; rewrite Hn; reflexivity|].
+      split; [constructor; assumption|].
+      constructor; [|exact H2]. exists tg, d, w, dd. split; [reflexivity|]. split; [rewrite Eb; reflexivity | exact El].
   Qed.
 
   (* an accepted assignment makes exactly that key user-defined and changes no other slot; the object stays the same *)
@@ -369,7 +519,7 @@ Section L.
     set_value x w pre c fs false k rl = (w', c', OOk) -> exists v, c' = store c k v.
   Proof.
     intros x w pre c fs k rl w' c' Hd H. rewrite set_value_unfold in H. unfold set_value_body in H.
-    destruct (fget F k fs) as [[f|dyn' vs fs'|req vs fs']|]; [| | |congruence].
+    destruct (fget F k fs) as [[f|dyn' vs fs'|req vs fs' fs'q]|]; [| | |congruence].
     - unfold Config.set_leaf in H. destruct (lvalidate f x); inversion H; subst. eexists; reflexivity.
     - destruct x; try (inversion H; fail).
       destruct (build_cfg w fs') as [w1 sub0].
@@ -388,14 +538,14 @@ Section L.
 
   (* reset: the key is marked default again, holds a freshly built default, nothing else changes *)
   Theorem reset_spec : forall w c fs k w' c' nd,
-    fget F k fs = Some nd -> reset_key F ldefault lcallable w c fs k = (w', c', OOk) ->
+    fget F k fs = Some nd -> reset_key F lvalidate lto_python ldefault lcallable lflag vrun w c fs k = (w', c', OOk) ->
     defined c' k = false
-    /\ dget k (c_data c') = Some (snd (build_val F ldefault lcallable w nd))
+    /\ dget k (c_data c') = Some (snd (build_val F lvalidate lto_python ldefault lcallable lflag vrun w nd))
     /\ (forall k', str_eqb k' k = false -> defined c' k' = defined c k' /\ dget k' (c_data c') = dget k' (c_data c))
     /\ c_id c' = c_id c.
   Proof.
     unfold Config.reset_key. intros w c fs k w' c' nd Hf H. rewrite Hf in H.
-    destruct (build_val F ldefault lcallable w nd) as [w1 v]. destruct c as [i d df dy]. inversion H; subst.
+    destruct (build_val F lvalidate lto_python ldefault lcallable lflag vrun w nd) as [w1 v]. destruct c as [i d df dy]. inversion H; subst.
     unfold defined. cbn [c_defaults c_data c_id snd]. repeat split.
     - rewrite smem_sadd, str_eqb_refl, orb_true_r. reflexivity.
     - apply dget_dset_eq.
@@ -403,17 +553,53 @@ Section L.
     - apply dget_dset_neq. exact H0.
   Qed.
 
+  (* a list of configurations with declared default items: a fresh configuration and a reset key hold one freshly built item
+     per declared map (build_items_spec says what each item is), the key marked default; `default_failed` only if building
+     the default raises (excluded by the premise ConfigWF.ok_node for every theorem about well-formed states) *)
+  Theorem fresh_list_default : forall w fs w' c k r vs fs' callable maps,
+    build_cfg w fs = (w', c) -> fget F k fs = Some (NCfgList r vs fs' (Some (callable, maps))) ->
+    defined c k = false /\
+    exists w0, match build_items vs fs' maps (bump_calls callable w0) [] with
+               | (_, Some l) => dget k (c_data c) = Some (VList l) /\ length l = length maps
+               | (_, None) => dget k (c_data c) = Some (VLeaf default_failed)
+               end.
+  Proof.
+    intros w fs w' c k r vs fs' callable maps H Hf. split.
+    - eapply fresh_all_default; [exact H|]. unfold fget in Hf. clear H. induction fs as [|[k0 n0] fs IH]; [discriminate|].
+      cbn [assoc] in Hf. cbn [map fst]. destruct (str_eqb k k0) eqn:E; [left; apply str_eqb_eq in E; auto | right; apply IH; exact Hf].
+    - destruct (fresh_slot w fs w' c k _ H Hf) as [w0 Hg]. exists w0. rewrite build_val_list in Hg.
+      destruct (build_items vs fs' maps (bump_calls callable w0) []) as [w1 [l|]] eqn:Eb; cbn [snd] in Hg; [|exact Hg].
+      split; [exact Hg|]. destruct (build_items_spec _ _ _ _ _ _ _ Eb) as [l1 [Hl [Hn _]]]. cbn [rev app] in Hl. subst l1. exact Hn.
+  Qed.
+  Theorem reset_list_default : forall w c fs k w' c' r vs fs' callable maps,
+    fget F k fs = Some (NCfgList r vs fs' (Some (callable, maps))) ->
+    reset_key F lvalidate lto_python ldefault lcallable lflag vrun w c fs k = (w', c', OOk) ->
+    defined c' k = false /\
+    (forall k', str_eqb k' k = false -> defined c' k' = defined c k' /\ dget k' (c_data c') = dget k' (c_data c)) /\
+    match build_items vs fs' maps (bump_calls callable w) [] with
+    | (_, Some l) => dget k (c_data c') = Some (VList l) /\ length l = length maps
+    | (_, None) => dget k (c_data c') = Some (VLeaf default_failed)
+    end.
+  Proof.
+    intros w c fs k w' c' r vs fs' callable maps Hf H.
+    destruct (reset_spec w c fs k w' c' _ Hf H) as [H1 [H2 [H3 _]]]. split; [exact H1|]. split; [exact H3|].
+    rewrite build_val_list in H2.
+    destruct (build_items vs fs' maps (bump_calls callable w) []) as [w1 [l|]] eqn:Eb; cbn [snd] in H2; [|exact H2].
+    split; [exact H2|]. destruct (build_items_spec _ _ _ _ _ _ _ Eb) as [l1 [Hl [Hn _]]]. cbn [rev app] in Hl. subst l1. exact Hn.
+  Qed.
+
   (* the per-key state machine of "user-defined", over whole histories of operations on one configuration
      (loads are sequences of per-key assignments: load_keys; they are left out of this alphabet) *)
   Definition no_load (o : cop) : bool := match o with CLoad _ _ | CLoads _ => false | _ => true end.
   Definition declared_target (fs : list (str * node F)) (o : cop) : bool :=
     match o with
-    | CSet k _ | CReset k => match fget F k fs with Some _ => true | None => false end
+    | CSet k _ | CReset k | CSetObj k _ => match fget F k fs with Some _ => true | None => false end
     | _ => true
     end.
   Definition mark_effect (o : cop) (r : oc) (k : str) (b : bool) : bool :=
     match o, r with
     | CSet k' _, OOk => b || str_eqb k k'
+    | CSetObj k' _, OOk => b || str_eqb k k'          (* an accepted configuration object counts as an assignment *)
     | CReset k', OOk => b && negb (str_eqb k k')
     | _, _ => b
     end.
@@ -434,19 +620,19 @@ Section L.
       + apply set_value_err in H; [subst; reflexivity | discriminate].
     - (* CReset *) destruct (fget F k0 fs) as [nd|] eqn:Ef; [|discriminate].
       destruct r; try (unfold Config.reset_key in H; rewrite Ef in H;
-                       destruct (build_val F ldefault lcallable w nd); destruct c; inversion H; fail).
+                       destruct (build_val F lvalidate lto_python ldefault lcallable lflag vrun w nd); destruct c; inversion H; fail).
       pose proof (reset_spec w c fs k0 w' c' nd Ef H) as [H1 [_ [H3 _]]]. cbn [mark_effect].
       destruct (str_eqb k k0) eqn:E.
       + apply str_eqb_eq in E. subst k0. rewrite H1. rewrite andb_false_r. reflexivity.
       + destruct (H3 k E) as [Hk _]. rewrite Hk. rewrite andb_true_r. reflexivity.
     - (* CAppend *) cbn [mark_effect].
-      destruct (fget F k0 fs) as [[f|d1 v1 f1|req vs' fs']|]; try (inversion H; subst; reflexivity).
+      destruct (fget F k0 fs) as [[f|d1 v1 f1|req vs' fs' fs'q]|]; try (inversion H; subst; reflexivity).
       destruct (dget k0 (c_data c)) as [[v|c0|l]|]; try (inversion H; subst; reflexivity).
       destruct (Config.make_item F lvalidate lto_python ldefault lcallable lflag vrun w (path_join pre k0) (N.of_nat (length l)) vs' fs' x) as [[w1 it] o1].
       destruct it as [it|]; [|inversion H; subst; destruct r; reflexivity].
       destruct o1; try (inversion H; subst; reflexivity). destruct c. inversion H; subst. reflexivity.
     - (* CSetIdx *) cbn [mark_effect].
-      destruct (fget F k0 fs) as [[f|d1 v1 f1|req vs' fs']|]; try (inversion H; subst; reflexivity).
+      destruct (fget F k0 fs) as [[f|d1 v1 f1|req vs' fs' fs'q]|]; try (inversion H; subst; reflexivity).
       destruct (dget k0 (c_data c)) as [[v|c0|l]|]; try (inversion H; subst; reflexivity).
       destruct (Config.make_item F lvalidate lto_python ldefault lcallable lflag vrun w (path_join pre k0) (N.of_nat (length l)) vs' fs' x) as [[w1 it] o1].
       destruct it as [it|]; [|inversion H; subst; destruct r; reflexivity].
@@ -454,11 +640,57 @@ Section L.
       destruct (i <? length l)%nat; destruct c; inversion H; subst; reflexivity.
     - (* CValidate *) inversion H; subst. destruct collect; [reflexivity|]. destruct (Config.validate_errs _ _ _ _ _ _ _); reflexivity.
     - (* CInsert *) cbn [mark_effect].
-      destruct (fget F k0 fs) as [[f|d1 v1 f1|req vs' fs']|]; try (inversion H; subst; reflexivity).
+      destruct (fget F k0 fs) as [[f|d1 v1 f1|req vs' fs' fs'q]|]; try (inversion H; subst; reflexivity).
       destruct (dget k0 (c_data c)) as [[v|c0|l]|]; try (inversion H; subst; reflexivity).
       destruct (Config.make_item F lvalidate lto_python ldefault lcallable lflag vrun w (path_join pre k0) (N.of_nat (length l)) vs' fs' x) as [[w1 it] o1].
       destruct it as [it|]; [|inversion H; subst; destruct r; reflexivity].
       destruct o1; try (inversion H; subst; reflexivity). destruct c. inversion H; subst. reflexivity.
+    - (* CSetObj *) destruct (fget F k0 fs) as [[f|d1 v1 f1|req vs' fs' fs'q]|] eqn:Ef; [| | |discriminate].
+      + destruct (lvalidate f cfg_object); inversion H; subst; reflexivity.
+      + inversion H; subst. destruct (store_spec c k0 (VCfg src) k) as [Hs _]. rewrite Hs. reflexivity.
+      + inversion H; subst. reflexivity.
+    - (* CAppendObj *) cbn [mark_effect].
+      destruct (fget F k0 fs) as [[f|d1 v1 f1|req vs' fs' fs'q]|]; try (inversion H; subst; reflexivity).
+      destruct (dget k0 (c_data c)) as [[v|c0|l]|]; try (inversion H; subst; reflexivity).
+      destruct (obj_item F lvalidate lflag vrun (path_join pre k0) (N.of_nat (length l)) vs' fs' src);
+        destruct c; inversion H; subst; reflexivity.
+    - (* CSetIdxObj *) cbn [mark_effect].
+      destruct (fget F k0 fs) as [[f|d1 v1 f1|req vs' fs' fs'q]|]; try (inversion H; subst; reflexivity).
+      destruct (dget k0 (c_data c)) as [[v|c0|l]|]; try (inversion H; subst; reflexivity).
+      destruct (obj_item F lvalidate lflag vrun (path_join pre k0) (N.of_nat (length l)) vs' fs' src);
+        try (inversion H; subst; reflexivity).
+      destruct (i <? length l)%nat; destruct c; inversion H; subst; reflexivity.
+    - (* CInsertObj *) cbn [mark_effect].
+      destruct (fget F k0 fs) as [[f|d1 v1 f1|req vs' fs' fs'q]|]; try (inversion H; subst; reflexivity).
+      destruct (dget k0 (c_data c)) as [[v|c0|l]|]; try (inversion H; subst; reflexivity).
+      destruct (obj_item F lvalidate lflag vrun (path_join pre k0) (N.of_nat (length l)) vs' fs' src);
+        destruct c; inversion H; subst; reflexivity.
+  Qed.
+
+  (* an accepted configuration object: the slot holds that very object (same identity), the key is user-defined,
+     nothing else moves; the object itself is stored as it was handed over *)
+  Theorem set_obj_ok : forall k src w pre c dyn vs fs w' c',
+    Config.apply_cop F lvalidate lto_python ldefault lcallable lflag vrun w pre c dyn vs fs (CSetObj k src) = (w', c', OOk) ->
+    c' = store c k (VCfg src) /\ w' = w /\ exists d' vs' fs', fget F k fs = Some (NSub d' vs' fs').
+  Proof.
+    intros k src w pre c dyn vs fs w' c' H. cbn [Config.apply_cop] in H.
+    destruct (fget F k fs) as [[f|d1 v1 f1|req vs' fs' fs'q]|].
+    - destruct (lvalidate f cfg_object); inversion H.
+    - inversion H; subst. repeat split. do 3 eexists. reflexivity.
+    - inversion H.
+    - destruct dyn; inversion H.
+  Qed.
+
+  (* the marks after handing over a configuration object: an accepted assignment makes exactly that key user-defined;
+     the list routes, and every refusal, change no mark *)
+  Theorem obj_marks : forall o w pre c vs fs w' c' r,
+    is_obj_op o = true -> declared_target fs o = true ->
+    Config.apply_cop F lvalidate lto_python ldefault lcallable lflag vrun w pre c false vs fs o = (w', c', r) ->
+    forall k, defined c' k = match o, r with CSetObj k' _, OOk => defined c k || str_eqb k k' | _, _ => defined c k end.
+  Proof.
+    intros o w pre c vs fs w' c' r Ho Hd H k.
+    rewrite (apply_cop_marks o w pre c vs fs w' c' r) by (try assumption; destruct o; try discriminate; reflexivity).
+    destruct o; try discriminate; destruct r; reflexivity.
   Qed.
 
   Fixpoint run_marks (ops : list cop) (w : world) (c : cfg) (vs : list N) (fs : list (str * node F)) : list (cop * oc) * cfg :=
@@ -500,8 +732,8 @@ Section L.
     | (k, nd') =>
         match nd', dget k d with
         | NLeaf f, Some (VLeaf x) => match lvalidate f x with Err e => [wrap (path_join pre k) e] | _ => [] end
-        | NCfgList req _ _, Some (VLeaf PNone) => if req then [EValidation (path_join pre k)] else []
-        | NCfgList req _ _, Some (VList l) =>
+        | NCfgList req _ _ _, Some (VLeaf PNone) => if req then [EValidation (path_join pre k)] else []
+        | NCfgList req _ _ _, Some (VList l) =>
             if req && is_nil l then [EValidation (path_join pre k)] else firstn 1 (validate_errs nd' (path_join pre k) (VList l))
         | NSub _ _ _, Some (VCfg c) => firstn 1 (validate_errs nd' (path_join pre k) (VCfg c))
         | _, _ => []
@@ -516,7 +748,7 @@ Section L.
   Proof.
     intros. cbn [Config.validate_errs]. destruct (feature_enabled fs d); [|reflexivity]. f_equal.
     induction fs as [|[k nd'] fs IH]; [reflexivity|]. cbn [flat_map]. rewrite <- IH. unfold field_errs at 1.
-    destruct nd' as [f|d1 v1 f1|req v1 f1]; destruct (dget k d) as [[x|c0|l]|]; try reflexivity;
+    destruct nd' as [f|d1 v1 f1|req v1 f1 f1q]; destruct (dget k d) as [[x|c0|l]|]; try reflexivity;
       try (destruct x; reflexivity); try (destruct l; reflexivity).
   Qed.
 
@@ -526,8 +758,8 @@ Section L.
     | [] => []
     | it :: r => validate_errs (NSub false vs fs) (path_index pre i) (VCfg it) ++ items_errs vs fs pre r (i + 1)
     end.
-  Lemma validate_errs_list : forall req vs fs pre l,
-    validate_errs (NCfgList req vs fs) pre (VList l) = items_errs vs fs pre l 0.
+  Lemma validate_errs_list : forall req vs fs fsq pre l,
+    validate_errs (NCfgList req vs fs fsq) pre (VList l) = items_errs vs fs pre l 0.
   Proof.
     intros. cbn [Config.validate_errs]. generalize 0. induction l as [|it l IH]; intro i; [reflexivity|].
     cbn [items_errs]. rewrite <- IH. reflexivity.
@@ -552,9 +784,9 @@ Section L.
     validate_errs (NSub dyn vs fs) pre (VCfg (Cfg i d df dy)) = [] ->
     feature_enabled fs d = true ->
     (forall k f x, In (k, NLeaf f) fs -> dget k d = Some (VLeaf x) -> forall e, lvalidate f x <> Err e)
-    /\ (forall k req vs' fs', In (k, NCfgList req vs' fs') fs -> req = true ->
+    /\ (forall k req vs' fs' fs'q, In (k, NCfgList req vs' fs' fs'q) fs -> req = true ->
           dget k d <> Some (VLeaf PNone) /\ dget k d <> Some (VList []))
-    /\ (forall k req vs' fs' l, In (k, NCfgList req vs' fs') fs -> dget k d = Some (VList l) ->
+    /\ (forall k req vs' fs' fs'q l, In (k, NCfgList req vs' fs' fs'q) fs -> dget k d = Some (VList l) ->
           items_errs vs' fs' (path_join pre k) l 0 = [])
     /\ (forall k d' vs' fs' sub, In (k, NSub d' vs' fs') fs -> dget k d = Some (VCfg sub) ->
           validate_errs (NSub d' vs' fs') (path_join pre k) (VCfg sub) = [])
@@ -570,7 +802,7 @@ Section L.
     - intros k f x Hin Hg e He. specialize (Hall _ Hin). cbn [field_errs] in Hall. rewrite Hg, He in Hall. discriminate.
     - intro Hg. specialize (Hall _ H). cbn [field_errs] in Hall. rewrite Hg in Hall. subst req. discriminate.
     - intro Hg. specialize (Hall _ H). cbn [field_errs] in Hall. rewrite Hg in Hall. subst req. discriminate.
-    - intros k req vs' fs' l Hin Hg. specialize (Hall _ Hin). cbn [field_errs] in Hall. rewrite Hg in Hall.
+    - intros k req vs' fs' fs'q l Hin Hg. specialize (Hall _ Hin). cbn [field_errs] in Hall. rewrite Hg in Hall.
       rewrite validate_errs_list in Hall.
       destruct (req && is_nil l); [discriminate|].
       destruct (items_errs vs' fs' (path_join pre k) l 0); [reflexivity | discriminate].
@@ -586,6 +818,46 @@ Section L.
   Theorem disabled_exempt : forall dyn vs fs pre i d df dy,
     feature_enabled fs d = false -> validate_errs (NSub dyn vs fs) pre (VCfg (Cfg i d df dy)) = [].
   Proof. intros. rewrite validate_errs_unfold, H. reflexivity. Qed.
+
+  (* a configuration object enters a list of configurations (append / item assignment / insert) only if whole-object
+     validation against the item schema found nothing at that moment; it is then an element of the list *)
+  Definition obj_list_op (o : cop) : option (str * cfg) :=
+    match o with
+    | CAppendObj k src | CSetIdxObj k _ src | CInsertObj k _ src => Some (k, src)
+    | _ => None
+    end.
+
+  Lemma in_set_nth_cfg : forall i (x : cfg) l, (i < length l)%nat -> In x (set_nth_cfg i x l).
+  Proof.
+    induction i as [|i IH]; destruct l as [|y l]; cbn [set_nth_cfg length]; intro H; try lia.
+    - left; reflexivity.
+    - right. apply IH. lia.
+  Qed.
+
+  Theorem obj_item_validated : forall o k src w pre c dyn vs fs w' c',
+    obj_list_op o = Some (k, src) ->
+    Config.apply_cop F lvalidate lto_python ldefault lcallable lflag vrun w pre c dyn vs fs o = (w', c', OOk) ->
+    exists req vs' fs' fs'q l l',
+      fget F k fs = Some (NCfgList req vs' fs' fs'q) /\ dget k (c_data c) = Some (VList l)
+      /\ validate_errs (NSub false vs' fs') (path_index (path_join pre k) (N.of_nat (length l))) (VCfg src) = []
+      /\ dget k (c_data c') = Some (VList l') /\ In src l'.
+  Proof.
+    intros o k src w pre c dyn vs fs w' c' Ho H.
+    destruct o; cbn [obj_list_op] in Ho; try discriminate; inversion Ho; subst; clear Ho; cbn [Config.apply_cop] in H;
+      (destruct (fget F k fs) as [[f|d1 v1 f1|req vs' fs' fs'q]|]; try (inversion H; fail));
+      (destruct (dget k (c_data c)) as [[v|c0|l]|] eqn:Eg; try (inversion H; fail));
+      unfold obj_item, Config.validate_raise in H;
+      (destruct (validate_errs (NSub false vs' fs') (path_index (path_join pre k) (N.of_nat (length l))) (VCfg src)) eqn:Ev;
+         [|inversion H]).
+    - destruct c as [i0 d df dy]. inversion H; subst. exists req, vs', fs', fs'q, l, (l ++ [src]).
+      split; [reflexivity|]. split; [reflexivity|]. split; [exact Ev|]. split; [apply dget_dset_eq | apply in_or_app; right; left; reflexivity].
+    - destruct (i <? length l)%nat eqn:Ei; [|inversion H]. destruct c as [i0 d df dy]. inversion H; subst.
+      exists req, vs', fs', fs'q, l, (set_nth_cfg i src l).
+      split; [reflexivity|]. split; [reflexivity|]. split; [exact Ev|]. split; [apply dget_dset_eq | apply in_set_nth_cfg; apply Nat.ltb_lt; exact Ei].
+    - destruct c as [i0 d df dy]. inversion H; subst.
+      exists req, vs', fs', fs'q, l, (firstn (insert_pos i (length l)) l ++ src :: skipn (insert_pos i (length l)) l).
+      split; [reflexivity|]. split; [reflexivity|]. split; [exact Ev|]. split; [apply dget_dset_eq | apply in_or_app; right; left; reflexivity].
+  Qed.
 
   (* ---------------------------------------------------------------------------------------- *)
   (* sizes, for induction over nested values and schemas                                      *)
@@ -611,7 +883,7 @@ Section L.
     match nd with
     | NLeaf _ => 1%nat
     | NSub _ _ fs => S ((fix go (fs : list (str * node F)) : nat := match fs with [] => O | (k, n) :: r => (nsize n + go r)%nat end) fs)
-    | NCfgList _ _ fs => S ((fix go (fs : list (str * node F)) : nat := match fs with [] => O | (k, n) :: r => (nsize n + go r)%nat end) fs)
+    | NCfgList _ _ fs _ => S ((fix go (fs : list (str * node F)) : nat := match fs with [] => O | (k, n) :: r => (nsize n + go r)%nat end) fs)
     end.
   Definition fsize (fs : list (str * node F)) : nat := fold_right (fun kn n => (nsize (snd kn) + n)%nat) O fs.
   Lemma nsize_sub : forall d v fs, nsize (NSub d v fs) = S (fsize fs).
@@ -660,8 +932,91 @@ Section L.
   Lemma wrap_plain : forall p e, (forall q, e <> EValidation q) -> wrap p e = EValidation p.
   Proof. intros p e H. destruct e; try reflexivity. exfalso. eapply H. reflexivity. Qed.
 
-  Lemma nsize_cfglist : forall r v fs, nsize (NCfgList r v fs) = S (fsize fs).
+  Lemma nsize_cfglist : forall r v fs fsq, nsize (NCfgList r v fs fsq) = S (fsize fs).
   Proof. intros. cbn [nsize]. f_equal. induction fs as [|[k n] fs IH]; [reflexivity|]. cbn [fsize fold_right snd]. f_equal. exact IH. Qed.
+
+  (* whether validation finds anything does not depend on where the configuration sits: the reference path only labels errors *)
+  Lemma flat_map_nil_iff : forall (A B : Type) (f : A -> list B) (l : list A), flat_map f l = [] <-> (forall x, In x l -> f x = []).
+  Proof.
+    intros A B f. induction l as [|a l IH]; cbn [flat_map]; split; intro H.
+    - intros x [].
+    - reflexivity.
+    - apply app_eq_nil in H. destruct H as [H1 H2]. intros x [<-|Hin]; [exact H1 | apply IH; assumption].
+    - rewrite (H a (or_introl eq_refl)). cbn [app]. apply IH. intros x Hin. apply H. right; exact Hin.
+  Qed.
+
+  Lemma validate_errs_nil_pre : forall n nd pre pre' v, (nsize nd <= n)%nat -> validate_errs nd pre v = [] -> validate_errs nd pre' v = [].
+  Proof.
+    induction n as [|n IH]; intros nd pre pre' v Hn H.
+    - destruct nd; cbn [nsize] in Hn; lia.
+    - assert (Hsub : forall dyn vs fs pre pre' c, (fsize fs <= n)%nat ->
+                validate_errs (NSub dyn vs fs) pre (VCfg c) = [] -> validate_errs (NSub dyn vs fs) pre' (VCfg c) = []).
+      { clear nd pre pre' v Hn H. intros dyn vs fs pre pre' [i d df dy] Hn H.
+        rewrite validate_errs_unfold in H. rewrite validate_errs_unfold. destruct (feature_enabled fs d); [|reflexivity].
+        apply app_eq_nil in H. destruct H as [Hf Hv].
+        rewrite flat_map_nil_iff in Hf. rewrite flat_map_nil_iff in Hv.
+        assert (Hf' : flat_map (field_errs d pre') fs = []).
+        { apply flat_map_nil_iff. intros [k nd'] Hin. specialize (Hf _ Hin). cbn [field_errs] in *.
+          assert (Hs : (nsize nd' <= n)%nat) by (pose proof (fsize_in _ _ _ Hin); lia).
+          destruct nd' as [f|d1 v1 f1|req v1 f1 f1q]; destruct (dget k d) as [[x|c0|l]|]; try reflexivity.
+          - destruct (lvalidate f x); try reflexivity. discriminate.
+          - destruct (validate_errs (NSub d1 v1 f1) (path_join pre k) (VCfg c0)) eqn:E; [|cbn [firstn] in Hf; discriminate].
+            rewrite (IH _ _ (path_join pre' k) _ Hs E). reflexivity.
+          - destruct x; try reflexivity. destruct req; [discriminate | reflexivity].
+          - destruct (req && is_nil l); [discriminate|].
+            destruct (validate_errs (NCfgList req v1 f1 f1q) (path_join pre k) (VList l)) eqn:E; [|cbn [firstn] in Hf; discriminate].
+            rewrite (IH _ _ (path_join pre' k) _ Hs E). reflexivity. }
+        assert (Hv' : flat_map (fun n0 => if vrun n0 (leaf_values d) then [] else [EValidation pre']) vs = []).
+        { apply flat_map_nil_iff. intros m Hin. specialize (Hv _ Hin). cbn beta in *.
+          destruct (vrun m (leaf_values d)); [reflexivity | discriminate]. }
+        rewrite Hf', Hv'. reflexivity. }
+      destruct nd as [f|dyn vs fs|req vs fs fsq].
+      + destruct v; reflexivity.
+      + rewrite nsize_sub in Hn. destruct v as [x|c|l]; try reflexivity. eapply Hsub; [lia | exact H].
+      + rewrite nsize_cfglist in Hn. destruct v as [x|c|l]; try reflexivity.
+        rewrite validate_errs_list in H. rewrite validate_errs_list.
+        revert H. generalize 0 at 1. generalize 0. induction l as [|it l IHl]; intros j i H; [reflexivity|].
+        cbn [items_errs] in *. apply app_eq_nil in H. destruct H as [H1 H2].
+        rewrite (Hsub false vs fs _ (path_index pre' j) it ltac:(lia) H1). cbn [app]. eapply IHl; exact H2.
+  Qed.
+  Theorem validation_path_independent : forall nd pre pre' v, validate_errs nd pre v = [] -> validate_errs nd pre' v = [].
+  Proof. intros. eapply validate_errs_nil_pre; [apply le_n | eassumption]. Qed.
+
+  (* C11 for configuration objects offered to a list: once accepted, the object is an element of the list and whole-object
+     validation against the item schema finds nothing, whatever position it is given *)
+  Theorem obj_item_held_valid : forall o k src w pre c dyn vs fs w' c',
+    obj_list_op o = Some (k, src) ->
+    Config.apply_cop F lvalidate lto_python ldefault lcallable lflag vrun w pre c dyn vs fs o = (w', c', OOk) ->
+    exists req vs' fs' fs'q l',
+      fget F k fs = Some (NCfgList req vs' fs' fs'q) /\ dget k (c_data c') = Some (VList l') /\ In src l'
+      /\ forall p, validate_errs (NSub false vs' fs') p (VCfg src) = [].
+  Proof.
+    intros o k src w pre c dyn vs fs w' c' Ho H.
+    destruct (obj_item_validated o k src w pre c dyn vs fs w' c' Ho H) as [req [vs' [fs' [fs'q [l [l' [Hf [_ [Hv [Hg Hin]]]]]]]]]].
+    exists req, vs', fs', fs'q, l'. repeat split; try assumption. intro p. eapply validation_path_independent; exact Hv.
+  Qed.
+
+  (* C11 for default items: every item of a freshly built default list passed whole-configuration validation against the
+     item schema when it was built (at any reference path) ... *)
+  Theorem default_items_validated : forall vs fs' maps w w' l,
+    build_items vs fs' maps w [] = (w', Some l) ->
+    length l = length maps /\ forall it p, In it l -> validate_errs (NSub false vs fs') p (VCfg it) = [].
+  Proof.
+    intros vs fs' maps w w' l H. destruct (build_items_spec _ _ _ _ _ _ _ H) as [l1 [Hl [Hn [Hv _]]]]. cbn [rev app] in Hl. subst l1.
+    split; [exact Hn|]. intros it p Hin. rewrite Forall_forall in Hv. eapply validation_path_independent. exact (Hv it Hin).
+  Qed.
+  (* ... and a list that is still the field's default is held to the rule like any other: when whole-configuration
+     validation of an enabled configuration finds nothing, every item of its default-marked list validates at its own
+     indexed path, and a required list is not empty (the default mark plays no role in validate_errs) *)
+  Theorem default_marked_list_validated : forall dyn vs fs pre i d df dy k req vs' fs' dfl l,
+    validate_errs (NSub dyn vs fs) pre (VCfg (Cfg i d df dy)) = [] -> feature_enabled fs d = true ->
+    In (k, NCfgList req vs' fs' dfl) fs -> smem k df = true -> dget k d = Some (VList l) ->
+    items_errs vs' fs' (path_join pre k) l 0 = [] /\ (req = true -> l <> []).
+  Proof.
+    intros dyn vs fs pre i d df dy k req vs' fs' dfl l H Hen Hin _ Hg.
+    destruct (validated_means dyn vs fs pre i d df dy H Hen) as (_ & M2 & Mi & _).
+    split; [eapply Mi; eauto|]. intros Hr Hl. subst l. destruct (M2 k req vs' fs' dfl Hin Hr) as [_ H2]. apply H2. exact Hg.
+  Qed.
 
   Lemma items_errs_in : forall vs fs pre l i e, In e (items_errs vs fs pre l i) ->
     exists j it, In e (validate_errs (NSub false vs fs) (path_index pre j) (VCfg it)).
@@ -684,7 +1039,7 @@ Section L.
         + apply in_flat_map in Hin. destruct Hin as [[k nd'] [Hk He]]. cbn [field_errs] in He.
           assert (Hw : verr_below pre (EValidation (path_join pre k))) by (eexists; split; [reflexivity | apply is_prefix_join]).
           assert (Hs : (nsize nd' <= n)%nat) by (pose proof (fsize_in _ _ _ Hk); lia).
-          destruct nd' as [f|d1 v1 f1|req v1 f1]; destruct (dget k d) as [[x|c0|l]|]; try (destruct He; fail).
+          destruct nd' as [f|d1 v1 f1|req v1 f1 f1q]; destruct (dget k d) as [[x|c0|l]|]; try (destruct He; fail).
           * destruct (lvalidate f x) eqn:Ev; try (destruct He; fail). destruct He as [<-|[]].
             rewrite wrap_plain; [exact Hw | intros q Hq; subst; eapply leaf_validate_plain; eauto].
           * destruct (validate_errs (NSub d1 v1 f1) (path_join pre k) (VCfg c0)) as [|e0 r] eqn:Ee; [destruct He|].
@@ -692,12 +1047,12 @@ Section L.
             eapply verr_below_weaken; [apply is_prefix_join|]. eapply IH; [exact Hs|]. rewrite Ee. left; reflexivity.
           * destruct x; try (destruct He; fail). destruct req; [|destruct He]. destruct He as [<-|[]]. exact Hw.
           * destruct (req && is_nil l); [destruct He as [<-|[]]; exact Hw|].
-            destruct (validate_errs (NCfgList req v1 f1) (path_join pre k) (VList l)) as [|e0 r] eqn:Ee; [destruct He|].
+            destruct (validate_errs (NCfgList req v1 f1 f1q) (path_join pre k) (VList l)) as [|e0 r] eqn:Ee; [destruct He|].
             cbn [firstn] in He. destruct He as [<-|[]].
             eapply verr_below_weaken; [apply is_prefix_join|]. eapply IH; [exact Hs|]. rewrite Ee. left; reflexivity.
         + apply in_flat_map in Hin. destruct Hin as [m [_ He]]. destruct (vrun m (leaf_values d)); [destruct He|].
           destruct He as [<-|[]]. eexists; split; [reflexivity | apply is_prefix_refl]. }
-      destruct nd as [f|dyn vs fs|req vs fs].
+      destruct nd as [f|dyn vs fs|req vs fs fsq].
       + destruct v; destruct Hin.
       + rewrite nsize_sub in Hn. destruct v as [x|c|l]; try (destruct Hin; fail). eapply Hsub; [|exact Hin]. lia.
       + rewrite nsize_cfglist in Hn. destruct v as [x|c|l]; try (destruct Hin; fail).
@@ -736,7 +1091,7 @@ Section L.
     destruct o1; try (inversion H; fail).
     - eapply IH; [unfold dsize; lia | exact H].
     - inversion H; subst. clear H.
-      destruct (fget F s fs) as [[f|d1 v1 f1|req v1 f1]|] eqn:Ef.
+      destruct (fget F s fs) as [[f|d1 v1 f1|req v1 f1 f1q]|] eqn:Ef.
       + destruct (smem s (c_dyn c)); [inversion E|].
         destruct (lto_python f xi) eqn:Ep.
         * destruct (set_leaf pre c f s a) as [c2 o2] eqn:El. inversion E; subst. right.
@@ -781,7 +1136,7 @@ Section L.
   Proof.
     intros n HLK x Hx w pre c fs dyn k rl w' c' e H. rewrite set_value_unfold in H. unfold set_value_body in H.
     assert (Hp : verr_below (path_join pre k) (EValidation (path_join pre k))) by (eexists; split; [reflexivity | apply is_prefix_refl]).
-    destruct (fget F k fs) as [[f|dyn' vs fs'|req vs fs']|].
+    destruct (fget F k fs) as [[f|dyn' vs fs'|req vs fs' fs'q]|].
     - destruct (set_leaf pre c f k x) as [c1 o1] eqn:E. inversion H; subst. right. eapply set_leaf_rej; eauto.
     - destruct x; try (inversion H; subst; right; exact Hp; fail); try (inversion H; fail).
       rewrite psize_dict in Hx.
@@ -835,5 +1190,47 @@ Section L.
     intros x w pre c fs dyn k rl w' c' e f Hf H. rewrite set_value_unfold in H. unfold set_value_body in H. rewrite Hf in H.
     unfold Config.set_leaf in H. destruct (lvalidate f x) eqn:Ev; inversion H; subst.
     apply wrap_plain. intros q Hq; subst; eapply leaf_validate_plain; eauto.
+  Qed.
+
+  (* a rejected configuration object: as an assignment, the library's validation error naming exactly the assigned field
+     (or AttributeError for a key the schema does not declare); as a list item, a validation error naming a path at or below
+     <list path>[len(list)] -- the position the item would have had -- or IndexError for an index outside the list *)
+  Theorem obj_rejection_shape : forall o w pre c dyn vs fs w' c' e,
+    Config.apply_cop F lvalidate lto_python ldefault lcallable lflag vrun w pre c dyn vs fs o = (w', c', OErr e) ->
+    match o with
+    | CSetObj k _ => e = EAttribute \/ e = EValidation (path_join pre k)
+    | CAppendObj k _ | CInsertObj k _ _ =>
+        exists l, dget k (c_data c) = Some (VList l) /\ verr_below (path_index (path_join pre k) (N.of_nat (length l))) e
+    | CSetIdxObj k i _ =>
+        exists l, dget k (c_data c) = Some (VList l) /\
+                  ((e = EIndex /\ (length l <= i)%nat) \/ verr_below (path_index (path_join pre k) (N.of_nat (length l))) e)
+    | _ => True
+    end.
+  Proof.
+    intros o w pre c dyn vs fs w' c' e H. destruct o; try exact I; cbn [Config.apply_cop] in H.
+    - destruct (fget F k fs) as [[f|d1 v1 f1|req vs' fs' fs'q]|].
+      + destruct (lvalidate f cfg_object) eqn:Ev; inversion H; subst. right.
+        apply wrap_plain. intros q Hq; subst; eapply leaf_validate_plain; eauto.
+      + inversion H.
+      + inversion H; subst. right; reflexivity.
+      + destruct dyn; inversion H; subst. left; reflexivity.
+    - destruct (fget F k fs) as [[f|d1 v1 f1|req vs' fs' fs'q]|]; try (inversion H; fail).
+      destruct (dget k (c_data c)) as [[v|c0|l]|]; try (inversion H; fail). exists l. split; [reflexivity|].
+      unfold obj_item in H.
+      destruct (validate_raise (NSub false vs' fs') (path_index (path_join pre k) (N.of_nat (length l))) (VCfg src)) eqn:Ev;
+        try (destruct c; inversion H; fail). inversion H; subst. eapply validate_raise_below; eauto.
+    - destruct (fget F k fs) as [[f|d1 v1 f1|req vs' fs' fs'q]|]; try (inversion H; fail).
+      destruct (dget k (c_data c)) as [[v|c0|l]|]; try (inversion H; fail). exists l. split; [reflexivity|].
+      unfold obj_item in H.
+      destruct (validate_raise (NSub false vs' fs') (path_index (path_join pre k) (N.of_nat (length l))) (VCfg src)) eqn:Ev;
+        try (inversion H; fail).
+      + destruct (i <? length l)%nat eqn:Ei; [destruct c; inversion H|]. inversion H; subst. left. split; [reflexivity|].
+        apply Nat.ltb_ge. exact Ei.
+      + inversion H; subst. right. eapply validate_raise_below; eauto.
+    - destruct (fget F k fs) as [[f|d1 v1 f1|req vs' fs' fs'q]|]; try (inversion H; fail).
+      destruct (dget k (c_data c)) as [[v|c0|l]|]; try (inversion H; fail). exists l. split; [reflexivity|].
+      unfold obj_item in H.
+      destruct (validate_raise (NSub false vs' fs') (path_index (path_join pre k) (N.of_nat (length l))) (VCfg src)) eqn:Ev;
+        try (destruct c; inversion H; fail). inversion H; subst. eapply validate_raise_below; eauto.
   Qed.
 End L.
